@@ -4,7 +4,7 @@ import json
 import pandas as pd
 
 from demeter import Strategy
-from demeter.strategy import PeriodTrigger
+from demeter.strategy import PeriodTrigger, TimeRange, TimeRangeTrigger
 
 
 class ManagedScript(Strategy):
@@ -21,9 +21,23 @@ class ManagedScript(Strategy):
 
         self._vf_view = multi.View(self._vf_case, self.broker)
         self.triggers.append(PeriodTrigger(pd.Timedelta(minutes=self._vf_case["k"]), self._vf_trigger, trigger_immediately=True))
+        # a second, stateless trigger covering the whole run: it only counts its calls (it must be called by this strategy's run alone)
+        from vf import world
+
+        bars = world.bar_grid(self._vf_case["start"], self._vf_case["n"], self._vf_case["k"])
+        self.triggers.append(TimeRangeTrigger(TimeRange(bars[0], bars[-1] + pd.Timedelta(minutes=self._vf_case["k"])), self._vf_count))
+
+        class _S:  # operations issued from initialize()
+            row_id = 0
+            prices = self.prices.iloc[0]
+
+        self._vf_phase("init", _S)
 
     def _vf_trigger(self, snap):
         self._vf_phase("trigger", snap)
+
+    def _vf_count(self, snap):
+        self._vf_calls = getattr(self, "_vf_calls", 0) + 1
 
     def _vf_phase(self, phase, snap):
         from vf import multi
@@ -31,6 +45,7 @@ class ManagedScript(Strategy):
         v = self._vf_view
         v.bar = snap.row_id
         v.prices = snap.prices
+        self._vf_calls = getattr(self, "_vf_calls", 0) + 1
         for op in self._vf_prog:
             if op[0] == snap.row_id and op[1] == phase:
                 try:
@@ -70,7 +85,7 @@ class ManagedScript(Strategy):
                          "mk": {k.name: multi.summarize(v) for k, v in s.market_status.items()}})
         df = self.account_status_df
         res = {"sid": self._vf_sid, "history": rows, "df_shape": list(df.shape), "df_net": [plain(x) for x in df["net_value"]] if "net_value" in df.columns else [plain(x) for x in df.iloc[:, 0]],
-               "final": plain(_strkeys(multi.raw_state(self._vf_view))), "outs": self._vf_outs, "actions": [type(a).__name__ for a in self.actions]}
+               "final": plain(_strkeys(multi.raw_state(self._vf_view))), "calls": self._vf_calls, "outs": self._vf_outs, "actions": [type(a).__name__ for a in self.actions]}
         with open(self._vf_out, "w") as f:
             json.dump(_norm(res), f)
 
